@@ -383,6 +383,19 @@ def check_scalars(ctx):
     ctx.need(verdict is not None, "Scalar.grad could not be executed for a pure scalar in mixed mode")
     ctx.ob("R15.4", GATES + ".Scalar.grad:mode", verdict, found="a pure scalar's gradient in mixed mode is %s" % ("mixed" if verdict else "the pure scalar z' (evaluated as |z'|^2), built as %s with data %r" % (y.cls.name, ydata)),
            required="d|z|^2/dφ = 2 Re(conj(z) z') as a mixed scalar (default mode of Circuit.grad is mixed)", mod=r[0].mod, node=r[1], sig="scalar-mode")
+    # the helpers the gradient rules build their factors with
+    for hname, spec in (("scalar", "Scalar(expr, is_mixed=is_mixed)"), ("sqrt", "Sqrt(expr)")):
+        hf = m.functions.get("%s.%s" % (GATES, hname))
+        ctx.need(hf is not None, "gates.%s not found" % hname)
+        ctx.analysed("%s.%s" % (GATES, hname))
+        names = {hf.args.args[0].arg: "expr"}
+        if len(hf.args.args) > 1:
+            names[hf.args.args[1].arg] = "is_mixed"
+        shape.match(ctx, "R15.4", "%s.%s" % (GATES, hname), ret_expr(hf.body), spec, names, mod=GATES, node=hf, sig="helper-" + hname, required="the helper builds the scalar it is asked for (the mixedness flag is passed on)")
+        if hname == "scalar":
+            d = hf.args.defaults
+            ctx.ob("R15.4", "%s.scalar:default" % GATES, len(hf.args.args) == 2 and len(d) == 1 and isinstance(d[0], ast.Constant) and d[0].value is False, found=ast.unparse(hf.args), required="pure unless asked otherwise",
+                   mod=GATES, node=hf, sig="helper-scalar-default")
     fn = m.func(GATES + ".Scalar.grad")
     rv = ret_expr(fn.body[-1:])
     if rv is not None and "self.data.diff(" in ast.unparse(rv):
@@ -447,6 +460,24 @@ def methods_of(m, mod):
     for q, fn in sorted(m.functions.items()):
         if q.startswith(mod + ".") and q.count(".") == mod.count(".") + 1:
             yield q, fn
+
+
+def check_inner_derivative(ctx):
+    """R15.3: the factor `gradient` every rotation / spider rule multiplies by is the derivative of the phase in the symbol (chain rule), cast to a number exactly when it has no symbol left"""
+    m = ctx.model
+    n = 0
+    for mod in (GATES, ZX):
+        for q, fn in methods_of(m, mod):
+            if not isinstance(fn, ast.FunctionDef) or fn.name != "grad":
+                continue
+            asg = [s for s in ast.walk(fn) if isinstance(s, ast.Assign) and ast.unparse(s.targets[0]) == "gradient"]
+            if not asg:
+                continue
+            n += 1
+            shape.match_stmts(ctx, "R15.3", q + ":inner-derivative", asg, ["gradient = self.phase.diff(var)", "gradient = complex(gradient) if not gradient.free_symbols else gradient"],
+                              {fn.args.args[0].arg: "self", fn.args.args[1].arg: "var"}, mod=mod, node=asg[0], sig="inner-derivative", exact=True,
+                              required="d(phase)/d(var); turned into a complex number when (and only when) no symbol is left in it")
+    ctx.need(n >= 5, "fewer than 5 gradient rules with an inner derivative found (%d)" % n)
 
 
 def check_forwarding(ctx):
@@ -544,6 +575,7 @@ def check(ctx):
     check_rotation_rules(ctx)
     check_scalars(ctx)
     check_spiders(ctx)
+    check_inner_derivative(ctx)
     check_forwarding(ctx)
     check_bubble_chain_rule(ctx)
     ctx.rule("R15.6", "the gradient of a tensor box is a bubble around it: bubbles are typed like their inside and evaluated by applying the function to the inside (C09 R09.7, R09.2)")
